@@ -113,7 +113,7 @@ theorem nodeNew_cases (fl : Flavour) (c : Nat) (a : NodeArgs) (s : Topo) : NodeP
     have := List.any_eq_false.mp hdup m hm
     simp [hc, hname] at this
 
-theorem addNode_cases (fl : Flavour) (c : Nat) (a : NodeArgs) (s : Topo) : NodePost s a (addNode fl c a s) := by
+theorem addNode_post (fl : Flavour) (c : Nat) (a : NodeArgs) (s : Topo) : NodePost s a (addNode fl c a s) := by
   unfold addNode
   refine ro_step (by ro) NodePost.err (fun _ _ => ?_)
   refine ro_step (by ro) NodePost.err (fun _ _ => ?_)
@@ -132,14 +132,14 @@ theorem classOk_all (c : Cls) : classOk c = true := by cases c <;> decide
 
 theorem invS_addNode (fl : Flavour) (c : Nat) (a : NodeArgs) (s : Topo) (ht : TypeArgOk .networkNode a.ntype) (h : InvS s) :
     InvS (addNode fl c a s).2 := by
-  rcases addNode_cases fl c a s with ⟨e, he⟩ | ⟨n, v, hf, hc, hty, _, _, _, hr⟩
+  rcases addNode_post fl c a s with ⟨e, he⟩ | ⟨n, v, hf, hc, hty, _, _, _, hr⟩
   · rw [he]; exact h
   · rw [hr]
     exact invS_push h hf (by simp [nodeOk, classOk_all, hc, ht n.typ hty]) (by simp [hc]) (by simp [hc])
 
 theorem invD_addNode (fl : Flavour) (c : Nat) (a : NodeArgs) (s : Topo) (ht : TypeArgOk .networkNode a.ntype) (h : InvD s) :
     InvD (addNode fl c a s).2 := by
-  rcases addNode_cases fl c a s with ⟨e, he⟩ | ⟨n, v, hf, hc, hty, _, _, _, hr⟩
+  rcases addNode_post fl c a s with ⟨e, he⟩ | ⟨n, v, hf, hc, hty, _, _, _, hr⟩
   · rw [he]; exact h
   · rw [hr]
     exact invD_push h hf (by simp [nodeOk, classOk_all, hc, ht n.typ hty])
@@ -204,7 +204,7 @@ theorem namesOk_pushNode {s : Topo} {n : GNode} (h : NamesOk s) (hc : ClosedOk s
 /-- `add_node` keeps the whole invariant of the statement, name scopes included -/
 theorem inv_addNode_full (fl : Flavour) (c : Nat) (a : NodeArgs) (s : Topo) (ht : TypeArgOk .networkNode a.ntype) (h : Inv s) :
     Inv (addNode fl c a s).2 := by
-  rcases addNode_cases fl c a s with ⟨e, he⟩ | ⟨n, v, hf, hc, hty, hnm, hnames, _, hr⟩
+  rcases addNode_post fl c a s with ⟨e, he⟩ | ⟨n, v, hf, hc, hty, hnm, hnames, _, hr⟩
   · rw [he]; exact h
   · rw [hr]
     refine ⟨invS_push h.struct hf (by simp [nodeOk, classOk_all, hc, ht n.typ hty]) (by simp [hc]) (by simp [hc]), ?_⟩
@@ -282,7 +282,7 @@ theorem preserves_bind_ro {P : Topo → Prop} {α β : Type} {m : M Topo α} {f 
   · have := ro_run hm h; subst this
     rw [bind_err h]; exact hs
 
-theorem need_ok {α : Type} {o : Option α} {e : Err} {a : α} (h : ∃ s : Topo, need o e s = (.ok a, s)) : o = some a := by
+theorem need_some {α : Type} {o : Option α} {e : Err} {a : α} (h : ∃ s : Topo, need o e s = (.ok a, s)) : o = some a := by
   obtain ⟨s, h⟩ := h
   cases o <;> simp [need] at h ⊢; exact h
 
@@ -294,7 +294,7 @@ theorem preserves_vocab_ifaceNew (fl : Flavour) (c : Nat) (name : String) (nid :
   rcases pick nid c with ⟨id, c'⟩
   dsimp only
   refine preserves_bind_ro (by ro) (fun ty hty => ?_)
-  have hty := need_ok hty
+  have hty := need_some hty
   refine Preserves.bind (ReadOnly.preserves (by ro)) (fun _ => ?_)
   refine Preserves.bind (ReadOnly.preserves (by ro)) (fun _ => ?_)
   have hn : nodeOk ⟨.connectionPoint, id, name, ty, dictUpdate [("StitchNode", "false")] ‹Props›⟩ = true := by
@@ -320,7 +320,7 @@ theorem preserves_vocab_linkNew (fl : Flavour) (c : Nat) (name : String) (nid : 
   rcases pick nid c with ⟨id, c'⟩
   dsimp only
   refine preserves_bind_ro (by ro) (fun ty hty => ?_)
-  have hty := need_ok hty
+  have hty := need_some hty
   refine Preserves.bind (ReadOnly.preserves (by ro)) (fun l => ?_)
   refine Preserves.bind (ReadOnly.preserves (by ro)) (fun _ => ?_)
   refine Preserves.bind (ReadOnly.preserves (by ro)) (fun _ => ?_)
